@@ -311,6 +311,73 @@ theorem kleinGordon_mass_zero (speed : K) (lap : Op ι K) (u v : St ι K) :
 
 end
 
+/-! ### the planned statements, collected -/
+section
+variable {ι K : Type} [Field K] [CharZero K]
+
+/-- **class_rate_eq_expression_semantics**: for every predefined class, all parameter values,
+all operators-with-boundary-conditions and all states, the field semantics of the advertised
+expression is the class rate (under the stated condition on the operators for the classes whose
+text uses one operator name for two operators or groups terms under one Laplacian) -/
+theorem class_rate_eq_expression_semantics (T : FunTab K) (lap g : Op ι K) (c u v : St ι K) :
+    (∀ D : Rat, rhsValue T lap g [("c", c)] (diffusionExpr (Fac.exact D)) = diffusionRate (D : K) lap c) ∧
+    (∀ γ mob : Rat, rhsValue T lap g [("c", c)] (allenCahnExpr (Fac.exact γ) (Fac.exact mob) false) =
+      allenCahnRate (γ : K) (mob : K) lap c) ∧
+    (∀ γ : Rat, rhsValue T lap g [("c", c)] (cahnHilliardExpr (Fac.exact γ)) =
+      cahnHilliardRate (γ : K) lap lap c) ∧
+    (∀ ν lam : Rat, rhsValue T lap g [("c", c)] (kpzExpr (Fac.exact ν) (Fac.exact lam)) =
+      kpzRate (ν : K) (lam : K) lap g c) ∧
+    (∀ ν : Rat, IsLinearOp lap → rhsValue T lap g [("c", c)] (ksExpr (Fac.exact ν)) =
+      ksRate (ν : K) lap lap g c) ∧
+    (∀ (ε kc2 : K) (a δ k2 : Rat), (a : K) = ε - kc2 ^ 2 → (k2 : K) = 2 * kc2 → IsLinearOp lap →
+      rhsValue T lap g [("c", c)] (swiftHohenbergExpr (Fac.exact a) (Fac.exact δ) (Fac.exact k2)) =
+        swiftHohenbergRate ε kc2 (δ : K) lap lap c) ∧
+    (∀ (speed : K) (s2 : Rat), (s2 : K) = speed ^ 2 →
+      rhsValue T lap g [("u", u), ("v", v)] (waveExprs (Fac.exact s2)).1 = (waveRate speed lap u v).1 ∧
+      rhsValue T lap g [("u", u), ("v", v)] (waveExprs (Fac.exact s2)).2 = (waveRate speed lap u v).2) ∧
+    (∀ (speed mass : K) (s2 m2 : Rat), (s2 : K) = speed ^ 2 → (m2 : K) = mass ^ 2 →
+      rhsValue T lap g [("u", u), ("v", v)] (kleinGordonExprs (Fac.exact s2) (Fac.exact m2) false).1 =
+        (kleinGordonRate speed mass lap u v).1 ∧
+      rhsValue T lap g [("u", u), ("v", v)] (kleinGordonExprs (Fac.exact s2) (Fac.exact m2) false).2 =
+        (kleinGordonRate speed mass lap u v).2) := by
+  refine ⟨fun D => diffusion_rate_eq_expression T D lap g c,
+    fun γ mob => (allenCahn_rate_eq_expression T γ mob lap g c).1,
+    fun γ => cahnHilliard_rate_eq_expression T γ lap g c,
+    fun ν lam => kpz_rate_eq_expression T ν lam lap g c,
+    fun ν hL => ks_rate_eq_expression_linear T ν hL g c,
+    fun ε kc2 a δ k2 ha hk hL => swiftHohenberg_rate_eq_expression_linear T ε kc2 a δ k2 ha hk hL g c,
+    fun speed s2 h2 => wave_rate_eq_expression T speed s2 h2 lap g u v,
+    fun speed mass s2 m2 h2 hm => ?_⟩
+  have h := kleinGordon_rate_eq_expression T speed mass s2 m2 h2 hm lap g u v
+  exact ⟨h.1, h.2.1⟩
+
+/-- **grouped_text_vs_split_class_gap**: both grouped texts, for affine operators -/
+theorem grouped_text_vs_split_class_gap (T : FunTab K) {A : Op ι K} (hA : IsLinearOp A)
+    (b : St ι K) (g : Op ι K) (c : St ι K) (i : ι) :
+    (∀ ν : Rat, rhsValue T (affine A b) g [("c", c)] (ksExpr (Fac.exact ν)) i =
+      ksRate (ν : K) (affine A b) (affine A b) g c i + (ν : K) * b i) ∧
+    (∀ (ε kc2 : K) (a δ k2 : Rat), (a : K) = ε - kc2 ^ 2 → (k2 : K) = 2 * kc2 →
+      rhsValue T (affine A b) g [("c", c)]
+          (swiftHohenbergExpr (Fac.exact a) (Fac.exact δ) (Fac.exact k2)) i =
+        swiftHohenbergRate ε kc2 (δ : K) (affine A b) (affine A b) c i + 2 * kc2 * b i) :=
+  ⟨fun ν => ks_grouped_text_vs_split_class_gap T ν hA b g c i,
+   fun ε kc2 a δ k2 ha hk =>
+     swiftHohenberg_grouped_text_vs_split_class_gap T ε kc2 a δ k2 ha hk hA b g c i⟩
+
+/-- **rate_uses_own_bc**: the three classes with two operators -/
+theorem rate_uses_own_bc (γ ν ε kc2 δ : K) (lap g : Op ι K) {Ac Amu : Op ι K}
+    (hmu : IsLinearOp Amu) (A2 : Op ι K) (bc bmu b2 : St ι K) (c : St ι K) (i : ι) :
+    cahnHilliardRate γ (affine Ac bc) (affine Amu bmu) c i =
+      Amu (cahnHilliardMu γ Ac c) i - γ * Amu bc i + bmu i ∧
+    ksRate ν lap (affine A2 b2) g c i = -ν * A2 (lap c) i - ν * b2 i - lap c i - 1 / 2 * g c i ∧
+    swiftHohenbergRate ε kc2 δ lap (affine A2 b2) c i =
+      (ε - kc2 ^ 2) * c i - 2 * kc2 * lap c i - A2 (lap c) i - b2 i + δ * c i ^ 2 - c i ^ 3 :=
+  ⟨congrFun (cahnHilliard_rate_uses_own_bc γ hmu bc bmu c) i,
+   ks_rate_uses_own_bc ν lap g A2 b2 c i,
+   swiftHohenberg_rate_uses_own_bc ε kc2 δ lap A2 b2 c i⟩
+
+end
+
 /-! ### the local part of a right-hand side is evaluated cell by cell -/
 section
 variable {ι K : Type} [Field K]
